@@ -10,32 +10,6 @@ Open Scope N_scope.
 Definition nvalid_cp (c : N) : bool := (c <? MAXCP)%N.
 Definition nvalid_str (s : str) : bool := forallb (fun c => (c <? MAXCP)%N) s.
 
-(* decidable domain of the round trip: non-empty list, valid code points, no
-   name other than the last ends with a backslash *)
-Fixpoint names_dom (ns : list str) : bool :=
-  match ns with
-  | [] => false
-  | [n] => nvalid_str n
-  | n :: ns' => nvalid_str n && negb (endswith1 BSL n) && names_dom ns'
-  end.
-
-Lemma names_dom_cons2 a m l :
-  names_dom (a :: m :: l) = nvalid_str a && negb (endswith1 BSL a) && names_dom (m :: l).
-Proof. reflexivity. Qed.
-
-Lemma names_dom_valid ns : names_dom ns = true -> Forall (fun n => nvalid_str n = true) ns.
-Proof.
-  induction ns as [|a ns IH]; intro H; [discriminate|].
-  destruct ns as [|m l].
-  - constructor; [exact H|constructor].
-  - rewrite names_dom_cons2 in H.
-    apply andb_true_iff in H as [H H3]. apply andb_true_iff in H as [H1 H2].
-    constructor; [exact H1|apply IH; exact H3].
-Qed.
-
-(* ------------------------------------------------------------------ *)
-(* s.replace(c, '\\'+c).replace('\\'+c, c) = s, for every s *)
-
 Lemma replace_char_cons c img x s :
   replace_char c img (x :: s) = (if x =? c then img else [x]) ++ replace_char c img s.
 Proof. reflexivity. Qed.
@@ -175,87 +149,6 @@ Proof.
 Qed.
 
 (* ------------------------------------------------------------------ *)
-(* split_dots never cuts inside s.replace('.', '\\.') *)
-
-Lemma split_dots_cons b c s :
-  split_dots b (c :: s) =
-  if (c =? DOT) && negb b then [] :: split_dots false s
-  else match split_dots (c =? BSL) s with p :: ps => (c :: p) :: ps | [] => [[c]] end.
-Proof. reflexivity. Qed.
-
-Lemma BSL_eqb_DOT : (BSL =? DOT) = false.
-Proof. reflexivity. Qed.
-Lemma DOT_eqb_BSL : (DOT =? BSL) = false.
-Proof. reflexivity. Qed.
-
-Lemma split_dots_replace_last b v :
-  split_dots b (replace_char DOT [BSL; DOT] v) = [replace_char DOT [BSL; DOT] v].
-Proof.
-  revert b. induction v as [|x v IH]; intro b; [reflexivity|].
-  rewrite replace_char_cons. destruct (x =? DOT) eqn:E.
-  - change ([BSL; DOT] ++ replace_char DOT [BSL; DOT] v)
-      with (BSL :: DOT :: replace_char DOT [BSL; DOT] v).
-    rewrite split_dots_cons, BSL_eqb_DOT. cbn [andb].
-    rewrite split_dots_cons, N.eqb_refl, N.eqb_refl. cbn [andb negb].
-    rewrite DOT_eqb_BSL, IH. reflexivity.
-  - change ([x] ++ replace_char DOT [BSL; DOT] v) with (x :: replace_char DOT [BSL; DOT] v).
-    rewrite split_dots_cons, E. cbn [andb]. rewrite IH. reflexivity.
-Qed.
-
-Lemma split_dots_replace_sep b v rest :
-  endbsl b (replace_char DOT [BSL; DOT] v) = false ->
-  split_dots b (replace_char DOT [BSL; DOT] v ++ DOT :: rest) =
-  replace_char DOT [BSL; DOT] v :: split_dots false rest.
-Proof.
-  revert b. induction v as [|x v IH]; intros b H.
-  - cbn [replace_char endbsl] in H. subst b.
-    cbn [replace_char app]. rewrite split_dots_cons, N.eqb_refl. reflexivity.
-  - rewrite replace_char_cons in *. destruct (x =? DOT) eqn:E.
-    + change ([BSL; DOT] ++ replace_char DOT [BSL; DOT] v)
-        with (BSL :: DOT :: replace_char DOT [BSL; DOT] v) in *.
-      cbn [endbsl] in H. rewrite <- !app_comm_cons.
-      rewrite split_dots_cons, BSL_eqb_DOT. cbn [andb].
-      rewrite split_dots_cons, N.eqb_refl, N.eqb_refl. cbn [andb negb].
-      rewrite (IH _ H). reflexivity.
-    + change ([x] ++ replace_char DOT [BSL; DOT] v) with (x :: replace_char DOT [BSL; DOT] v) in *.
-      cbn [endbsl] in H. rewrite <- app_comm_cons.
-      rewrite split_dots_cons, E. cbn [andb]. rewrite (IH _ H). reflexivity.
-Qed.
-
-Lemma split_dots_escape_last b n : split_dots b (escape n) = [escape n].
-Proof. unfold escape. apply split_dots_replace_last. Qed.
-
-Lemma split_dots_escape_sep n rest :
-  endswith1 BSL n = false ->
-  split_dots false (escape n ++ DOT :: rest) = escape n :: split_dots false rest.
-Proof.
-  intro H. unfold escape at 1 2. apply split_dots_replace_sep.
-  fold (escape n). rewrite endbsl_escape, endbsl_endswith1. exact H.
-Qed.
-
-Lemma join_cons2 sep (x y : str) l : join sep (x :: y :: l) = x ++ sep ++ join sep (y :: l).
-Proof. reflexivity. Qed.
-
-Lemma split_dots_join ns :
-  names_dom ns = true ->
-  split_dots false (join [DOT] (map escape ns)) = map escape ns.
-Proof.
-  induction ns as [|a ns IH]; intro H; [discriminate|].
-  destruct ns as [|m l].
-  - cbn [map join]. apply split_dots_escape_last.
-  - rewrite names_dom_cons2 in H.
-    apply andb_true_iff in H as [H H3]. apply andb_true_iff in H as [_ H2].
-    apply negb_true_iff in H2.
-    change (map escape (a :: m :: l)) with (escape a :: map escape (m :: l)).
-    change (map escape (m :: l)) with (escape m :: map escape l) at 1.
-    rewrite join_cons2.
-    change (escape a ++ [DOT] ++ join [DOT] (escape m :: map escape l))
-      with (escape a ++ DOT :: join [DOT] (map escape (m :: l))).
-    rewrite split_dots_escape_sep by exact H2.
-    rewrite (IH H3). reflexivity.
-Qed.
-
-(* ------------------------------------------------------------------ *)
 Section WithCodec.
 Hypothesis codec : forall s, nvalid_str s = true -> udec (uesc s) = Ok s.
 
@@ -271,20 +164,5 @@ Proof.
   cbn [map mapM]. rewrite (unescape_escape n Hn). cbn [bind]. rewrite IH. reflexivity.
 Qed.
 
-Lemma split_join_on_domain : forall ns, names_dom ns = true -> split (join_names ns) = Ok ns.
-Proof.
-  intros ns H. unfold split, join_names.
-  rewrite (split_dots_join ns H).
-  apply mapM_unescape_escape. apply names_dom_valid. exact H.
-Qed.
 End WithCodec.
 
-Lemma split_join_refuted :
-  exists ns, names_dom ns = false /\ ns <> [] /\ split (join_names ns) <> Ok ns.
-Proof.
-  exists [[92]; [97]]. split; [vm_compute; reflexivity|]. split; [discriminate|].
-  vm_compute. discriminate.
-Qed.
-
-Example names_dom_nonvacuous : names_dom [[97; 92; 46; 58]; [35; 99; 92]] = true.
-Proof. vm_compute. reflexivity. Qed.
